@@ -13,12 +13,14 @@ Strategy of `py_equiv [callee equalities]` (both sides are normalised independen
  * `"".join` is `List.flatten`; a list of strings that is only looked at through its concatenation is never built
    (`flatComp_bind_flatten`);
  * comprehensions with a pure body are `flatMap`/`map`; consecutive comprehensions fuse (`flatComp_pure`, `flatComp_flatMap`);
- * `range(len(xs))` + `xs[i]` is `enumerate(xs)`; an unused `enumerate` index disappears;
+ * `range(len(xs))` + `xs[i]` is `enumerate(xs)`; `zip(range(len(xs)), xs)` and `zip(xs, range(len(xs)))` are `enumerate(xs)`
+   (components swapped); an unused `enumerate` index disappears;
  * `startswith`/`endswith` are slice comparisons; `<=`, `>=`, `!=`, `>` are spelled with `<`, `==`, `not`; emptiness tests
    (`len(x) == 0`, `x == ""`, `x == []`, `n == 0`) are spelled with `truthy`; integer `+`/`*` are AC-normalised.
 What normalisation leaves is attacked by a structural descent (`py_descend`): two loops over the same list with the same
 state type whose bodies agree up to what happens at `break` versus after the loop (`forIn_bind_congr_cont`: `while True … break`
-versus `while cond`, both extracted as fuel loops that consume fuel identically).
+versus `while cond`, both extracted as fuel loops that consume fuel identically), or whose state tuples hold the same `let mut`
+variables in another order (`forIn_bind_congr_map` with a permutation found by `py_loop_perm`: `for … else` versus an explicit flag).
 -/
 import PyModel.Ops
 set_option autoImplicit false
